@@ -9,7 +9,11 @@ On the code, with TLC (spec/OpsTrace.tla) as the judge of every record:
  (ii)  seeded random programs (<= 12 operation nodes, all 11 scalar types): every add_node attempt is judged like
        (i); every node value produced by SimpleEvaluator::evaluate_node must satisfy the real check_type and the byte
        layout CCValues!HasType prescribes for the node's type (leaf byte lengths and container arities are logged);
- (iii) outcome of every evaluation is a value or a runtime error of an operation that may fail (indices,
+ (iii) whole-graph evaluation (Evaluator::evaluate_graph, modelled by spec/EvalGraph.tla whose invariants TLC checks on
+       every DAG of <= 5 nodes and every output choice): on every random program, with the output set to the last node or
+       to any node, evaluate_graph must return the node-by-node value of the output (same inputs, same PRNG seed), or a
+       runtime error iff some node failed;
+ (iv)  outcome of every evaluation is a value or a runtime error of an operation that may fail (indices,
        permutations, assertions); a panic anywhere (add_node, evaluate_node, check_type) is a violation.
 """
 import json, os
@@ -42,6 +46,11 @@ def run(chk):
             crashes.append({"kind": "panic", "id": "eval:" + r["id"], "op": r["rec"]["op"], "rec": r["rec"], "ats": r["ats"],
                             "msg": r.get("msg", ""), "loc": r.get("loc", r["res"])})
     chk.note("one_node_evaluations", nev)
+    # design model of whole-graph evaluation (value release after the last consumer): every DAG of <= N nodes, every output
+    res = lib.tlc("EvalGraph", "MC_EvalGraph_%s.cfg" % tier, workers=4, timeout=1500)
+    chk.add_tlc(res, "EvalGraph")
+    if not res.ok:
+        chk.violation({"class": "design model of evaluate_graph", "invariant": res.violated}, {"tlc": res.trace[-3000:]})
     trace = chk.path("trace.ndjson")
     recs = lib.read_ndjson(types) + lib.read_ndjson(fuzz) + crashes
     lib.write_ndjson(trace, recs)
@@ -74,6 +83,9 @@ def run(chk):
             sig = {"op": r["op"], "class": "value does not fit the node type", "check_type": r["chk"]}
         elif k == "rt":
             sig = {"op": r["op"], "class": "runtime error of an operation that cannot fail"}
+        elif k == "graph":
+            sig = {"class": "evaluate_graph disagrees with node-by-node evaluation", "result": r["res"], "output_is_last_node": r["out"] == r["nodes"] - 1,
+                   "location": r.get("loc", "")}
         else:
             sig = {"class": "unknown record", "kind": k}
         key = json.dumps(sig, sort_keys=True)
